@@ -194,11 +194,12 @@ func c06Routing(t *T) {
 		if (o.Kind == "Remove" || o.Kind == "RemoveAll" || o.Kind == "Rename") && (o.P == "." || o.Q == ".") {
 			continue
 		}
-		// regions outside the comparison: mount points (and their ancestors) as operands of Remove/Rename
+		// outside the comparison: a mount point itself as operand of Remove/Rename (there is no counterpart on the twin).
+		// An ANCESTOR of a mount point is an ordinary operand: the call goes to the file system that holds it and to no other
 		skip := false
 		if o.Kind == "Remove" || o.Kind == "RemoveAll" || o.Kind == "Rename" {
 			for _, m := range w.points {
-				if o.P == m || strings.HasPrefix(m, o.P+"/") || (o.Kind == "Rename" && (o.Q == m || strings.HasPrefix(m, o.Q+"/"))) {
+				if o.P == m || (o.Kind == "Rename" && o.Q == m) {
 					skip = true
 				}
 			}
